@@ -158,6 +158,9 @@ fn c18_worker(a: &Args) -> i32 {
     let max_viol = a.u64("max-violations", 3);
     let start = a.u64("start", 0);
     let pool = Pool::load(&a.str("repo", "/repo"));
+    let rev = a.str("ref-order", "fwd") == "rev";
+    let progress = a.kv.get("progress").cloned();
+    let mut refsf = a.kv.get("dump-refs").map(|p| std::io::BufWriter::new(std::fs::File::create(p).unwrap_or_else(|e| die(&format!("{p}: {e}")))));
     let mut out = WorkerOut { property: "C18".into(), ..Default::default() };
     let mut dumpf = dump.map(|p| std::io::BufWriter::new(std::fs::File::create(&p).unwrap_or_else(|e| die(&format!("{p}: {e}")))));
     let mut done_indexes: Vec<u64> = Vec::new();
@@ -168,8 +171,16 @@ fn c18_worker(a: &Args) -> i32 {
         if let Some(f) = dumpf.as_mut() {
             writeln!(f, "RUN {i} {rs:016x}").unwrap();
         }
+        if let Some(p) = &progress {
+            let _ = std::fs::write(p, format!("{i}"));
+        }
         let sc = gen_scenario(rs, &pool);
-        let rp = c18::reference_phase(&sc);
+        let rp = c18::reference_phase_ordered(&sc, rev);
+        if let Some(f) = refsf.as_mut() {
+            for (k, v) in &rp.env.refs {
+                writeln!(f, "{i}\t{:016x}\t{k}", rng::fnv(v.as_bytes())).unwrap();
+            }
+        }
         out.runs += 1;
         out.ref_keys += rp.ref_keys as u64;
         out.scenario_hashes.push(sc.hash());
@@ -316,6 +327,20 @@ pub fn replay_file(rf: &ReplayFile, a: &Args) -> (Vec<Violation>, Vec<String>) {
         let sc = rf.aisle.clone().unwrap_or_else(|| die("C11 replay without aisle scenario"));
         let (v, _) = c11::execute(&sc);
         return (v, log);
+    }
+    // a file without a scenario (hang reports) names the run by its provenance only
+    if rf.scenario.is_none() {
+        let p = rf.provenance.clone().unwrap_or_else(|| die("C18 replay without scenario or provenance"));
+        let pool = Pool::load(&a.str("repo", "/repo"));
+        let rs = mix3(p.verif_seed, p.salt, p.run_index);
+        let s = gen_scenario(rs, &pool);
+        let rp = c18::reference_phase(&s);
+        let mut viol = rp.violations.clone();
+        for sched in c18::schedules_for(rs, 4, 64) {
+            let (v, _) = c18::execute(&rp, &sched, false);
+            viol.extend(v);
+        }
+        return (viol, log);
     }
     let sc = rf.scenario.clone().unwrap_or_else(|| die("C18 replay without scenario"));
     // leaked-state violations need the runs the worker had executed before
